@@ -30,7 +30,7 @@ mod proofs {
     }
 
     #[kani::proof]
-    #[kani::unwind(32)]
+    #[kani::unwind(45)]
     fn numeral_rendering_denotes_the_numeral() {
         let n: isize = kani::any();
         let text = Format(&IntegerTerm::Numeral(n)).to_string();
@@ -40,7 +40,7 @@ mod proofs {
 
     /// reachability witness: the assertion above is reached (this one must FAIL)
     #[kani::proof]
-    #[kani::unwind(32)]
+    #[kani::unwind(45)]
     fn witness_reachable() {
         let n: isize = kani::any();
         kani::assume(n == -42);
